@@ -33,7 +33,7 @@ SRC = open(CORPUS).read()
 MODNAME = "C09_funcs"
 FUNCS = ("straight", "branch", "chain", "loop", "forloop", "calls", "attrs", "alias", "methods", "subs", "dicts",
          "unpack", "guard", "nested", "breaks", "globs", "augm", "boolop", "recur", "whileif", "tuples", "nonecheck",
-         "whilebreak", "condcall", "globwrite", "listalias", "chaincmp")
+         "whilebreak", "condcall", "globwrite", "listalias", "chaincmp", "boom", "deepboom")
 METRICS = (config.CoverageMetric.BRANCH, config.CoverageMetric.LINE, config.CoverageMetric.CHECKED)
 CRITERION_NAMES = ("RETURN_VALUE", "RETURN_CONST", "STORE_FAST", "STORE_GLOBAL", "STORE_ATTR", "STORE_SUBSCR",
                    "POP_JUMP_IF_FALSE", "POP_JUMP_IF_TRUE", "POP_JUMP_IF_NONE", "POP_JUMP_IF_NOT_NONE", "FOR_ITER")
@@ -89,6 +89,7 @@ MON = Monitor(STATIC, CORPUS)
 MON.register(ORIG_CODE, instructions=True)
 ORIG_NS: dict = {"__name__": MODNAME + "_orig"}
 _r, IMPORT_EVENTS, IMPORT_OFFSETS = MON.record(exec, (ORIG_CODE, ORIG_NS), offsets=True)  # noqa: S102
+assert _r[0] == "ok"
 IMPORT_GRAPH = DepGraph(STATIC, IMPORT_EVENTS)
 IMPORT_GRAPH.lastdef = {k: v for k, v in IMPORT_GRAPH.lastdef.items() if k[0] == "G"}
 IMPORT_LINES = {ev[2] for ev in IMPORT_EVENTS if ev[0] == "line" and ev[2] <= N_CORPUS_LINES}
@@ -198,8 +199,8 @@ def build_case(f: int, a: int, b: int, mask: int):
     if trace is not trace_obj:
         _CASES[key] = "tracer replaced its trace object during the run"
         return _CASES[key]
-    if res0 != res1 or type(res0) is not type(res1):
-        _CASES[key] = f"instrumented {fname}{(a, b)} returned {res1!r}, original {res0!r}"
+    if res0 != res1 or type(res0[1]) is not type(res1[1]):
+        _CASES[key] = f"instrumented {fname}{(a, b)} ended with {res1!r}, original {res0!r}"
         return _CASES[key]
     if _shape(ev0) != _shape(ev1):
         _CASES[key] = f"instrumented {fname}{(a, b)} produced a different line/call event sequence than the original"
@@ -207,7 +208,8 @@ def build_case(f: int, a: int, b: int, mask: int):
     case.trace = trace
     case.executed_lines = IMPORT_LINES | {e[2] for e in ev0 if e[0] == "line"}
     case.executed_offsets = IMPORT_OFFSETS | offs0
-    case.graph = DepGraph(STATIC, ev0, prefix=IMPORT_GRAPH)
+    case.raised = res0[0] == "raise"
+    case.graph = DepGraph(STATIC, ev0, prefix=IMPORT_GRAPH, raised=case.raised)
     # ---- locate trace positions in line events
     n = len(trace.executed_instructions)
     pos_event: dict[int, int] = {}  # trace position -> index (in ev1/ev0) of the line event it belongs to
@@ -233,6 +235,9 @@ def build_case(f: int, a: int, b: int, mask: int):
         ins = trace.executed_instructions[p]
         if ins.name in CRITERION_NAMES and pos_event.get(p) is not None:
             case.candidates.append(p)
+    if case.raised and n > inst.n_import and (n - 1) not in case.candidates:
+        # the criterion of an exception assertion: the last instruction traced before the exception propagated
+        case.candidates.append(n - 1)
     _CASES[key] = case
     return case
 
@@ -248,6 +253,8 @@ def criterion_roots(case: Case, p: int):
         return f"trace position {p} ({ins.name} line {ins.lineno}) was traced while the interpreter was on line {le.line}"
     stmt = STATIC.stmt_at[le.line]
     name = ins.name
+    if case.raised and p == len(case.trace.executed_instructions) - 1:
+        return [le.r] if isinstance(stmt, ast.Raise) and le.r is not None else [le.x]
     if name in ("RETURN_VALUE", "RETURN_CONST"):
         return [le.r] if le.r is not None else [le.x]
     if name in ("STORE_FAST", "STORE_GLOBAL"):
@@ -373,7 +380,9 @@ class ExecEnv:
                 self.module = importlib.import_module(HOOK_MODULE)
         finally:
             self.hook.uninstall()
-        self.executor = TestCaseExecutor(self.sp)
+        # generous time limits: the executor's default (min(5 s, 1 s per statement), slicing included) is hit on a
+        # loaded machine, and a timed-out execution stops the tracer
+        self.executor = TestCaseExecutor(self.sp, maximum_test_execution_timeout=900, test_execution_time_per_statement=300)
         self.executor.set_instrument(True)
         self.executor.add_remote_observer(RemoteAssertionExecutionObserver())
         self.executor.add_remote_observer(RemoteStatementSlicingObserver())
@@ -410,9 +419,10 @@ def run_exec_case(f: int, a: int, b: int, shape: int, akind: int, parts: int = 7
     # ---- ground truth: the uninstrumented function on the same arguments
     ORIG_NS.update(GLOBAL_INIT)
     res0, ev0, _offs = MON.record(ORIG_NS[driver], (a, b))
-    graph = DepGraph(STATIC, ev0, prefix=IMPORT_GRAPH)
+    raised = res0[0] == "raise"
+    graph = DepGraph(STATIC, ev0, prefix=IMPORT_GRAPH, raised=raised)
     executed = IMPORT_LINES | {e[2] for e in ev0 if e[0] == "line" and e[2] <= N_CORPUS_LINES}
-    top = graph.frame_ret.get(1)
+    top = graph.raise_node if raised else graph.frame_ret.get(1)
     need = {ln for ln in DepGraph.closure_lines([top]) if ln <= N_CORPUS_LINES} if top is not None else set()
     # ---- the real test case
     for k, v in GLOBAL_INIT.items():
@@ -425,15 +435,19 @@ def run_exec_case(f: int, a: int, b: int, shape: int, akind: int, parts: int = 7
     if shape == 1:
         test_case.add_statement(_stmt(f"var_1 = {ALIAS}.inc(var_0)", "var_1"))
         last = "var_1"
-    if akind == 0:
-        test_case.get_statement(-1).assertions.append(ass.ObjectAssertion(last, res0))
+    if raised:
+        # Pynguin attaches an ExceptionAssertion (alone) to a statement that raised; kinds 0/1 become that, 2 none
+        if akind in (0, 1):
+            test_case.get_statement(2).assertions.append(ass.ExceptionAssertion("builtins", res0[1].__name__))
+    elif akind == 0:
+        test_case.get_statement(-1).assertions.append(ass.ObjectAssertion(last, res0[1]))
     elif akind == 1:
-        test_case.get_statement(-1).assertions.append(ass.FloatAssertion(last, float(res0)))
-    elif akind == 3:
+        test_case.get_statement(-1).assertions.append(ass.FloatAssertion(last, float(res0[1])))
+    if akind == 3:
         test_case.get_statement(0).assertions.append(ass.ObjectAssertion("int_0", a))
     result = env.executor.execute(test_case)
     what = f"test case {fname}({a}, {b}) shape {shape} assertion kind {akind}"
-    if result.timeout or result.exceptions:
+    if result.timeout or (set(result.exceptions) != ({2} if raised else set())):
         return fail(f"{what}: execution failed: timeout={result.timeout} exceptions={result.exceptions}")
     trace = result.execution_trace
     n_assert = {0: 1, 1: 1, 2: 0, 3: 1}[akind]
@@ -446,7 +460,7 @@ def run_exec_case(f: int, a: int, b: int, shape: int, akind: int, parts: int = 7
     stmt_lines = {env.corpus_line_ids[lid] for lid in trace.checked_lines}
     if parts & 1 and not stmt_lines <= executed:
         return fail(f"{what}: statement-checked lines {sorted(stmt_lines - executed)} were not executed")
-    if parts & 4 and not need <= stmt_lines:
+    if parts & 4 and not raised and not need <= stmt_lines:
         return fail(f"{what}: statement-checked lines {sorted(stmt_lines)} miss {sorted(need - stmt_lines)} on which the "
                     f"value stored by the call statement depends")
     # ---- assertion-checked coverage
